@@ -100,11 +100,12 @@ def oracle_constructor(rng, out):
         if i not in touched and final[i] != up[i]:
             ok = False
     # independent reading of "compatible": every hard constraint evaluates as passing on the input
-    # (a start-codon policy restricts more than evaluate() checks, so those problems are left out)
+    # (an explicit start-codon policy restricts more than evaluate() checks, so those problems are left out;
+    #  the policy "keep" freezes the input's own first codon and is compatible by definition)
     try:
         stub = hard.init_constraints(up, descs)
         compatible = all(c.evaluate(stub).passes for c in stub.constraints) and \
-            not any(d["kind"] == "cds" and d.get("start_codon") is not None for d in descs)
+            not any(d["kind"] == "cds" and d.get("start_codon") not in (None, "keep") for d in descs)
     except Exception:
         compatible = False
     if compatible and final != up:
